@@ -28,7 +28,7 @@ def load_known():
 
 def impl_class(impl):
     for p in ("panic:crash:nil", "panic:crash:index", "panic:crash:div", "panic:crash:assert", "panic:crash:numerror", "panic:crash:type", "panic:crash:other",
-              "panic:raised", "timeout", "fatal", "diverge", "badtype", "cerr", "missing", "both", "neither", "mustnil"):
+              "panic:raised", "timeout", "fatal", "diverge", "badtype", "cerr", "missing", "both", "neither", "mustnil", "mustpanic", "mustunusable"):
         if impl.startswith(p):
             return p
     return impl.split(":", 1)[0]
